@@ -7,6 +7,7 @@ import c_txn
 import c_iso
 import c_conc
 import c_meta
+import c_struct
 import thms
 
 TRUSTED = [
@@ -171,6 +172,20 @@ def make_api_run(pid, with_txn=False, extra=None):
     return run
 
 
+def api_replay(path):
+    head = open(path).readline()
+    return c_struct.replay(path) if "L-struct" in head else c_api.replay(path)
+
+
+def struct_extra(pid):
+    def f(tier, seed, out):
+        info, viols = c_struct.check(pid, tier, seed)
+        out["coverage"]["correspondence_struct"] = info
+        out["violations"] += viols
+        out["summary"] += f" L-struct scripts={info['scripts']} dumps={info['graph_dumps_compared']} disagreements={info['disagreements']}"
+    return f
+
+
 def meta_c09(tier, seed, out):
     base, var, ra, rb, bad = c_meta.check(tier, seed)
     out["coverage"]["metamorphic"] = {"programs": len(base), "variants_differing": len(bad),
@@ -253,7 +268,7 @@ for _pid in ["C01", "C02", "C04", "C05", "C10", "C11", "C12", "C13", "C14", "C15
     if not _t: continue
     PROPS[_pid] = {
         "modules": thms.MODULES[_pid], "audit_import": thms.MODULES[_pid], "theorems": _t,
-        "run": make_api_run(_pid, with_txn=_pid in ("C01", "C12", "C14"), extra=meta_c09 if _pid == "C09" else None), "replay": c_api.replay,
+        "run": make_api_run(_pid, with_txn=_pid in ("C01", "C12", "C14"), extra=meta_c09 if _pid == "C09" else struct_extra(_pid) if _pid in ("C06", "C07") else None), "replay": api_replay,
         "technique": "Lean 4 theorems on " + API_TEXT[_pid][0] + "; differential correspondence of the real library with the Lean specification S on generated programs",
         "level_text": "Theorems: " + API_TEXT[_pid][0] + ". Tie: every generated script (" + API_TEXT[_pid][1] + ") is executed on the real library in-process and on the executable Lean specification S, outputs compared line by line (callbacks with the line at which they ran, samples, forced lazies, panics, idle observables); any disagreement is minimised and reported with the script as replay.",
         "level_note": "Trusted: Lean kernel (+propext, Classical.choice, Quot.sound), the hand-written S and models, harness and generators. The theorems are about S / the mechanism models; that the code refines S is checked by differential execution, not proved. 64-bit wrapping integers; single-threaded.",
